@@ -21,7 +21,7 @@ func init() {
 	core.Register(&core.Prop{
 		ID:         "C07",
 		Title:      "Backslash escape codecs round-trip and parse any input safely",
-		Quick:      12000,
+		Quick:      40000,
 		Thorough:   600000,
 		Gen:        gen,
 		Corpus:     corpus,
@@ -34,6 +34,7 @@ func init() {
 			"non-trivial = at least one Format of non-empty input or one Parse whose input contains a backslash; distinct by hash of the op list",
 		Classify: classify,
 		Parallel: true,
+		Shrink:   shrink,
 		Assumptions: []string{
 			"Go int treated as unbounded (no input near 2^63 bytes)",
 			"strconv.AppendUint, unicode/utf8 and unicode/utf16 behave as modelled (compared on every run through Format/Parse)",
@@ -747,4 +748,71 @@ func corpus() []core.Case {
 			"parsestr "+h("\\uD83D\\uDE0g"), "parsestr "+h("\\uD800\\uD800\\uDC00"), "parsestr "+h("a\\uD83D\\uD83D\\uDE00b"), "parsestr "+h("\\uD83D\\\\uDE00\\u0041"),
 			"parsestr "+h("ab\\u00e9cd"), "parse "+h("abcdef\\uD83D\\uDE00")+" 18", "parse "+h("abcdefgh\\u0041")+" 5"),
 	}
+}
+
+// ---------------------------------------------------------------- shrinker
+
+// shrink: delete op lines, then delta-debug the bytes of each remaining op's argument.
+func shrink(c core.Case, fails func(core.Case) bool) core.Case {
+	cur := c
+	mk := func(lines []string) core.Case { return core.Case{Lines: lines, Seed: c.Seed, Tag: c.Tag} }
+	budget := 1500
+	// 1. single failing op line, if one is enough
+	for i := 1; i < len(cur.Lines) && budget > 0; i++ {
+		budget--
+		if t := mk([]string{cur.Lines[0], cur.Lines[i]}); fails(t) {
+			cur = t
+			break
+		}
+	}
+	// 2. otherwise drop lines one at a time
+	for i := len(cur.Lines) - 1; i >= 1 && len(cur.Lines) > 2 && budget > 0; i-- {
+		budget--
+		nl := append(append([]string{}, cur.Lines[:i]...), cur.Lines[i+1:]...)
+		if t := mk(nl); fails(t) {
+			cur = t
+		}
+	}
+	// 3. shrink the bytes
+	for li := 1; li < len(cur.Lines); li++ {
+		t := core.Toks(cur.Lines[li])
+		if len(t) < 2 {
+			continue
+		}
+		b, ok := unhx(t[1])
+		if !ok {
+			continue
+		}
+		full := len(t) == 3 && t[2] == strconv.Itoa(len(b))
+		build := func(nb []byte) core.Case {
+			nt := append([]string{}, t...)
+			nt[1] = hx(nb)
+			if full {
+				nt[2] = strconv.Itoa(len(nb))
+			}
+			nl := append([]string{}, cur.Lines...)
+			nl[li] = strings.Join(nt, " ")
+			return mk(nl)
+		}
+		for chunk := (len(b) + 1) / 2; chunk >= 1 && budget > 0; {
+			removed := false
+			for i := 0; i+chunk <= len(b) && budget > 0; {
+				budget--
+				nb := append(append([]byte{}, b[:i]...), b[i+chunk:]...)
+				if cand := build(nb); fails(cand) {
+					b = nb
+					cur = cand
+					removed = true
+				} else {
+					i += chunk
+				}
+			}
+			if chunk > 1 {
+				chunk /= 2
+			} else if !removed {
+				break
+			}
+		}
+	}
+	return cur
 }
